@@ -333,6 +333,15 @@ example : nf { rawTy := .u8 } ({ rawTy := .u8 } : Ctx).init (.bin .bxor (.var .r
 example : nf { rawTy := .u8, arg := .int .u8 } ({ rawTy := .u8, arg := .int .u8 } : Ctx).init
     (.bin .bxor (.var .raw) (.var .fieldValue)) = none := by decide +kernel
 
+/-- a signed getter written with an arithmetic shift: `((raw as i64) >> 48) as i16` for `(((raw >> 48) & 0xffff) << 0) as i16`
+    (the field is the top 16 bits of a `u64`): accepted; shifting by 47 is not -/
+theorem sgn_sar_equiv : ∀ m, getterBody (Base.new 64) Ex.sgn = some m →
+    bodiesEquiv (getterCtx (Base.new 64)) (.cast (.bin .shr (.cast (.var .raw) .i64) (usz 48)) .i16) m = true := by
+  intro m h; injection h with h; subst h; decide +kernel
+example : ∀ m, getterBody (Base.new 64) Ex.sgn = some m →
+    bodiesEquiv (getterCtx (Base.new 64)) (.cast (.bin .shr (.cast (.var .raw) .i64) (usz 47)) .i16) m = false := by
+  intro m h; injection h with h; subst h; decide +kernel
+
 /-- … whereas a sum that can carry has no normal form: no answer, never "equal" -/
 example : nf { rawTy := .u8 } ({ rawTy := .u8 } : Ctx).init (.bin .add (.var .raw) (.var .raw)) = none := by decide +kernel
 
